@@ -184,6 +184,176 @@ theorem C07_page_seek_history_independent (ph : Phys) (f : Int → M Int) (pos :
   exact exec_obs f _ a b wa wb hser hnr
 
 
+/-- two handles on the same file with the same settings: everything `ov_open` fixed -/
+structure SameFile (a b : VF) : Prop where
+  tab : a.tab = b.tab
+  infos : a.infos = b.infos
+  seekable : a.seekable = b.seekable
+  end_ : a.end_ = b.end_
+  hs : a.hs = b.hs
+  hdrkey : a.hdrkey = b.hdrkey
+  source : a.source = b.source
+  closes : a.closes = b.closes
+
+/-- consistency of the decode state with the life-cycle marker -/
+def DecWF (s : VF) : Prop := LinkWF s ∧ (s.ready > STREAMSET → s.vd.isSome = true) ∧ s.ready ≤ INITSET
+
+/-- the state after "select the link, install queue and position, make the decoder ready" written out -/
+def landed (s : VF) (link : Nat) (cur : Cur) (os : OStream) (po : Int) : VF :=
+  let s0 : VF := { s with offset := cur.off, fill := cur.fill, current_link := link, current_serialno := s.serialnos[link]!, os := os, pcm_offset := po }
+  { s0 with ready := INITSET, lapped := false, vd := some (freshDec s0) }
+
+theorem land_ready (s : VF) (w : DecWF s) (link : Nat) (cur : Cur) (os : OStream) (po : Int) :
+    (makeDecodeReady.run { (selectLinkF link { s with offset := cur.off, fill := cur.fill }) with os := os, pcm_offset := po }) =
+      (0, landed s link cur os po) := by
+  obtain ⟨wl, wv, wr⟩ := w
+  unfold selectLinkF
+  by_cases h : (link : Int) ≠ s.current_link ∨ s.ready < STREAMSET
+  · simp only [h, if_true]
+    simp [makeDecodeReady, StateT.run, bind, StateT.bind, get, getThe, MonadStateOf.get, StateT.get, set, StateT.set, pure, StateT.pure,
+      landed, freshDec, curInfo, STREAMSET, INITSET, Generated.STREAMSET, Generated.INITSET]
+  · have hl : (link : Int) = s.current_link := by
+      by_cases e : (link : Int) = s.current_link
+      · exact e
+      · exact absurd (Or.inl e) h
+    have hr : s.ready ≥ STREAMSET := by
+      by_cases e : s.ready < STREAMSET
+      · exact absurd (Or.inr e) h
+      · omega
+    have hw := wl hr
+    have hser : s.current_serialno = s.serialnos[link]! := by
+      rw [hw.2, ← hl]; simp
+    simp only [h, if_false]
+    have h34 : s.ready = 3 ∨ s.ready = 4 := by
+      have : STREAMSET = 3 := rfl
+      have : INITSET = 4 := rfl
+      omega
+    rcases h34 with h3 | h4
+    · simp [makeDecodeReady, StateT.run, bind, StateT.bind, get, getThe, MonadStateOf.get, StateT.get, set, StateT.set, pure, StateT.pure,
+        landed, freshDec, curInfo, STREAMSET, INITSET, Generated.STREAMSET, Generated.INITSET, h3, ← hl, hser]
+    · have hv := wv (by rw [h4]; decide)
+      cases hvd : s.vd with
+      | none => rw [hvd] at hv; exact absurd hv (by decide)
+      | some d =>
+          simp [makeDecodeReady, StateT.run, bind, StateT.bind, get, getThe, MonadStateOf.get, StateT.get, set, StateT.set, pure, StateT.pure,
+            landed, freshDec, curInfo, STREAMSET, INITSET, Generated.STREAMSET, Generated.INITSET, h4, ← hl, hser, hvd]
+
+theorem landed_eq (a b : VF) (h : SameFile a b) (link : Nat) (cur : Cur) (os : OStream) (po : Int) :
+    landed a link cur os po = landed b link cur os po := by
+  obtain ⟨ht, hi, hsk, he, hhs, hk, hso, hc⟩ := h
+  cases a; cases b
+  simp only [VF.tab, Tab.mk.injEq] at ht
+  obtain ⟨t1, t2, t3, t4, t5⟩ := ht
+  simp only [] at hi hsk he hhs hk hso hc t1 t2 t3 t4 t5
+  subst hi hsk he hhs hk hso hc t1 t2 t3 t4 t5
+  simp [landed, freshDec, curInfo]
+
+theorem pcmSeek_run (ph : Phys) (f : Int → M Int) (pos : Int) (s : VF) :
+    (pcmSeek ph f pos).run s =
+      (if ((pcmSeekPage ph f pos).run s).1 < 0 then (pcmSeekPage ph f pos).run s
+       else if ((makeDecodeReady).run ((pcmSeekPage ph f pos).run s).2).1 ≠ 0 then (makeDecodeReady).run ((pcmSeekPage ph f pos).run s).2
+       else (pcmSeekTail ph pos).run ((makeDecodeReady).run ((pcmSeekPage ph f pos).run s).2).2) := by
+  unfold pcmSeek
+  simp only [StateT.run, bind, StateT.bind]
+  split
+  rename_i ret s1 h
+  simp only [h, pure, StateT.pure]
+  by_cases c : ret < (0:Int)
+  · simp only [c, if_true, StateT.pure]; rfl
+  · simp only [c, if_false, StateT.bind]
+    cases h2 : makeDecodeReady s1 with
+    | mk r2 s2 =>
+      by_cases c2 : r2 ≠ (0:Int)
+      · show (if r2 ≠ 0 then StateT.pure r2 else pcmSeekTail ph pos) s2 = _
+        rw [if_pos c2, if_pos c2]; rfl
+      · show (if r2 ≠ 0 then StateT.pure r2 else pcmSeekTail ph pos) s2 = _
+        rw [if_neg c2, if_neg c2]
+
+/-- **the sample-accurate seek forgets the past completely**: two handles on the same file, whatever their histories, are in the
+    *same state* after `ov_pcm_seek(pos)` and got the same return value — whenever the page search lands (the ordinary case; the
+    other plans are error exits and the raw-seek fallback for packets spanning pages) -/
+theorem C07_seek_history_independent (ph : Phys) (f : Int → M Int) (pos : Int) (a b : VF)
+    (hsame : SameFile a b) (ha : a.ready ≥ OPENED) (hb : b.ready ≥ OPENED) (sa : a.seekable = true)
+    (wa : DecWF a) (wb : DecWF b) (hp : 0 ≤ pos ∧ pos ≤ sumAll a.tab)
+    (link : Nat) (cur : Cur) (os : OStream) (po : Int) (hplan : planSeekPage ph a.tab pos = .land link cur os po) :
+    (pcmSeek ph f pos).run a = (pcmSeek ph f pos).run b := by
+  have sb : b.seekable = true := by rw [← hsame.seekable]; exact sa
+  have ht := hsame.tab
+  have ta := pcmTotal_all a ha sa
+  have tb := pcmTotal_all b hb sb
+  have h1a : ¬ (a.ready < OPENED) := by omega
+  have h1b : ¬ (b.ready < OPENED) := by omega
+  have ea : (pcmSeekPage ph f pos).run a = (execPlan f (.land link cur os po)).run a := by
+    unfold pcmSeekPage
+    have n1 : ¬ (pos < 0) := by omega
+    have n2 : ¬ (pcmTotal a (-1) < pos) := by rw [ta]; omega
+    simp [StateT.run, bind, StateT.bind, get, getThe, MonadStateOf.get, StateT.get, pure, StateT.pure, h1a, sa, n1, n2, hplan]
+  have eb : (pcmSeekPage ph f pos).run b = (execPlan f (.land link cur os po)).run b := by
+    unfold pcmSeekPage
+    have n1 : ¬ (pos < 0) := by omega
+    have n2 : ¬ (pcmTotal b (-1) < pos) := by rw [tb, ← ht]; omega
+    simp [StateT.run, bind, StateT.bind, get, getThe, MonadStateOf.get, StateT.get, pure, StateT.pure, h1b, sb, n1, n2, ← ht, hplan]
+  have xa : (execPlan f (.land link cur os po)).run a =
+      (0, { (selectLinkF link { a with offset := cur.off, fill := cur.fill }) with os := os, pcm_offset := po }) := by
+    simp [execPlan, setCur, selectLink, StateT.run, bind, StateT.bind, modify, modifyGet, MonadStateOf.modifyGet, StateT.modifyGet, pure, StateT.pure]
+  have xb : (execPlan f (.land link cur os po)).run b =
+      (0, { (selectLinkF link { b with offset := cur.off, fill := cur.fill }) with os := os, pcm_offset := po }) := by
+    simp [execPlan, setCur, selectLink, StateT.run, bind, StateT.bind, modify, modifyGet, MonadStateOf.modifyGet, StateT.modifyGet, pure, StateT.pure]
+  have ra := land_ready a wa link cur os po
+  have rb := land_ready b wb link cur os po
+  have le := landed_eq a b hsame link cur os po
+  rw [pcmSeek_run, pcmSeek_run, ea, eb, xa, xb]
+  simp only [show ¬ ((0 : Int) < 0) from by decide, if_false]
+  rw [ra, rb, le]
+
+def SeekPlan.isLand : SeekPlan → Bool
+  | .land .. => true
+  | _ => false
+
+theorem isLand_iff (p : SeekPlan) (h : SeekPlan.isLand p = true) : ∃ l c o po, p = .land l c o po := by
+  cases p with
+  | land l c o po => exact ⟨l, c, o, po, rfl⟩
+  | fail _ _ => exact absurd h (by simp [SeekPlan.isLand])
+  | failSel _ _ _ _ => exact absurd h (by simp [SeekPlan.isLand])
+  | viaRaw _ _ _ _ => exact absurd h (by simp [SeekPlan.isLand])
+
+/-! non-vacuity: a one-link file of five pages, a landing plan for sample 200, and two handles with different pasts
+    (one just opened, one in the middle of decoding after a lapped seek) that meet every hypothesis -/
+def apk (g : Int) : QPkt := { bytes := 10, b0 := 0, b1 := 0, gran := g, eos := false }
+def exPhys : Phys :=
+  { size := 558,
+    pages := #[
+      { off := 0, len := 58, hlen := 28, serial := 7, pageno := 0, gran := 0, bos := true, eos := false, cont := false, pk := [{ bytes := 30, b0 := 1, b1 := 118, gran := 0, eos := false }] },
+      { off := 58, len := 200, hlen := 29, serial := 7, pageno := 1, gran := 0, bos := false, eos := false, cont := false, pk := [{ bytes := 20, b0 := 3, b1 := 118, gran := 0, eos := false }, { bytes := 150, b0 := 5, b1 := 118, gran := 0, eos := false }] },
+      { off := 258, len := 100, hlen := 29, serial := 7, pageno := 2, gran := 64, bos := false, eos := false, cont := false, pk := [apk (-1), apk 64] },
+      { off := 358, len := 100, hlen := 29, serial := 7, pageno := 3, gran := 192, bos := false, eos := false, cont := false, pk := [apk (-1), apk 192] },
+      { off := 458, len := 100, hlen := 29, serial := 7, pageno := 4, gran := 320, bos := false, eos := true, cont := false, pk := [apk (-1), { apk 320 with eos := true }] }],
+    infos := [(0, { channels := 1, rate := 8000, bs0 := 64, bs1 := 256, modes := #[0, 1] })] }
+def exTab : Tab := { links := 1, offsets := #[0, 558], dataoffsets := #[258], serialnos := #[7], pcmlengths := #[0, 320] }
+def exFresh : VF :=
+  { seekable := true, end_ := 558, ready := OPENED, links := 1, offsets := #[0, 558], dataoffsets := #[258], serialnos := #[7], pcmlengths := #[0, 320],
+    infos := #[{ channels := 1, rate := 8000, bs0 := 64, bs1 := 256, modes := #[0, 1] }] }
+def exUsed : VF :=
+  { exFresh with ready := INITSET, offset := 458, fill := 558, pcm_offset := 100, current_link := 0, current_serialno := 7, lapped := true,
+                 vd := some { lW := true, W := false, cW := 128, cur := 160, ret := 140, gran := 100, seq := 5, sc := 0, eof := false } }
+
+example : SeekPlan.isLand (planSeekPage exPhys exTab 200) = true := by decide +kernel
+example : SameFile exFresh exUsed ∧ DecWF exFresh ∧ DecWF exUsed ∧ exFresh.tab = exTab ∧ exFresh ≠ exUsed := by
+  refine ⟨⟨rfl, rfl, rfl, rfl, rfl, rfl, rfl, rfl⟩, ⟨?_, ?_, ?_⟩, ⟨?_, ?_, ?_⟩, rfl, ?_⟩
+  · intro h; exact absurd h (by decide)
+  · intro h; exact absurd h (by decide)
+  · decide
+  · intro _; exact ⟨by decide, rfl⟩
+  · intro _; rfl
+  · decide
+  · intro h; have := congrArg VF.lapped h; exact absurd this (by decide)
+/-- the two handles above end in the same state after seeking to sample 200 -/
+example (f : Int → M Int) : (pcmSeek exPhys f 200).run exFresh = (pcmSeek exPhys f 200).run exUsed := by
+  obtain ⟨l, c, o, po, h⟩ := isLand_iff _ (show SeekPlan.isLand (planSeekPage exPhys exFresh.tab 200) = true by decide +kernel)
+  exact C07_seek_history_independent exPhys f 200 exFresh exUsed ⟨rfl, rfl, rfl, rfl, rfl, rfl, rfl, rfl⟩ (by decide) (by decide) rfl
+    ⟨fun h => absurd h (by decide), fun h => absurd h (by decide), by decide⟩
+    ⟨fun _ => ⟨by decide, rfl⟩, fun _ => rfl, by decide⟩ (by decide +kernel) l c o po h
+
 example : readAvail { ready := INITSET, vd := some { lW := false, W := false, cW := 0, cur := 10, ret := 4, gran := -1, seq := 0, sc := 0, eof := false } } = 6 := by decide
 
 end Vorbis.Props.C07
